@@ -160,6 +160,10 @@ TReOpen ==
 
 TWaited == Ev("Waited") /\ Adv /\ Keep(<<ost, hst, gst, fst, sst, smode, ver, sval, app, ebeg, endedB, bad, badl>>)
 
+\* SlotGuard::delay_flush with a fresh flush guard of the entry: the guard is in wait mode from here on
+TDelay == /\ Ev("Delay") /\ Adv /\ smode' = [smode EXCEPT ![Rec[l].i] = "wait"]
+          /\ Keep(<<ost, hst, gst, fst, sst, ver, sval, app, ebeg, endedB, bad, badl>>)
+
 \* fault injection: the payload of slot guard i will panic in its close (the guard's drop then delivers nothing;
 \* the entry must still be appended exactly once, with everything else in it)
 TFault == /\ Ev("Fault") /\ Adv /\ faulted' = faulted \cup {Rec[l].i}
@@ -179,7 +183,7 @@ TPanic == Ev("Panic") /\ Adv /\ Flag("panic: the code under test panicked")
           /\ Keep(<<ost, hst, gst, fst, sst, smode, ver, sval, app, ebeg, endedB>>)
 
 TNext_ == TReset \/ TNew \/ TMut \/ TSMut \/ TDropStart \/ TDropEnd \/ TEmitBegin \/ TAppend \/ TQuiesce
-          \/ TReOpen \/ TWaited \/ TFault \/ TObserve \/ TWaitSkipped \/ TWaitTimeout \/ TPanic
+          \/ TReOpen \/ TWaited \/ TDelay \/ TFault \/ TObserve \/ TWaitSkipped \/ TWaitTimeout \/ TPanic
 
 TSpec == TInit /\ [][TNext_]_tvars
 
